@@ -1070,7 +1070,10 @@ class SpectrumResult:
         for key, value in list(self._data.items()):
             if isinstance(value, list):
                 if key == "D":
-                    self._data[key] = np.array(value, dtype=object)
+                    arr = np.empty(len(value), dtype=object)
+                    for idx, d in enumerate(value):
+                        arr[idx] = np.asarray(d, dtype=np.int64)
+                    self._data[key] = arr
                 else:
                     self._data[key] = np.asarray(value)
 
@@ -1102,11 +1105,10 @@ class SpectrumResult:
 
         # Normalize ragged D to list[np.ndarray[int64]]
         if "D" in self._data and self._data["D"].dtype == object:
-            D_list = []
-            for d in self._data["D"]:
-                arr = np.asarray(d, dtype=np.int64)
-                D_list.append(arr)
-            self._data["D"] = np.array(D_list, dtype=object)
+            D_arr = np.empty(len(self._data["D"]), dtype=object)
+            for idx, d in enumerate(self._data["D"]):
+                D_arr[idx] = np.asarray(d, dtype=np.int64)
+            self._data["D"] = D_arr
 
         # Convenience: number of frequency bins
         self.nf = int(self._data.get("f", np.array([])).shape[0])
